@@ -740,8 +740,16 @@ func c08Exec(op []string) string {
 		if key == "header" {
 			// rest/internal/encoding: NewUnmarshaler("header", WithStringValues(), WithCanonicalKeyFunc(CanonicalMIMEHeaderKey))
 			opts = append(opts, WithStringValues(), WithCanonicalKeyFunc(textproto.CanonicalMIMEHeaderKey))
-		} else if cfg.Int("fs", 0) == 1 {
-			opts = append(opts, WithStringValues(), WithOpaqueKeys())
+		} else {
+			// fs: 1 = WithStringValues + WithOpaqueKeys (rest/httpx form / path), 2 = WithStringValues, 3 = WithOpaqueKeys
+			switch cfg.Int("fs", 0) {
+			case 1:
+				opts = append(opts, WithStringValues(), WithOpaqueKeys())
+			case 2:
+				opts = append(opts, WithStringValues())
+			case 3:
+				opts = append(opts, WithOpaqueKeys())
+			}
 		}
 		if cfg.Int("fa", 0) == 1 {
 			opts = append(opts, WithFromArray())
@@ -774,7 +782,67 @@ func c08Exec(op []string) string {
 	var out strings.Builder
 	out.WriteString(prefix + "ok")
 	c08Dump(&out, target.Elem())
+	c08Scribble(target.Elem(), 0)
 	return out.String()
+}
+
+
+// c08Scribble overwrites, in place, everything the result holds by reference (slice elements, map values) after the result
+// was printed — what a caller may do with a value that was handed to it.  State that the unmarshaller shares between
+// calls (a cached default handed out without a copy, a pooled buffer) then shows in the next result that relies on it.
+func c08Scribble(v reflect.Value, depth int) {
+	if depth > 8 {
+		return
+	}
+	switch v.Kind() {
+	case reflect.Ptr, reflect.Interface:
+		if !v.IsNil() {
+			c08Scribble(v.Elem(), depth+1)
+		}
+	case reflect.Struct:
+		for i := 0; i < v.NumField(); i++ {
+			if v.Type().Field(i).IsExported() {
+				c08Scribble(v.Field(i), depth+1)
+			}
+		}
+	case reflect.Slice:
+		for i := 0; i < v.Len(); i++ {
+			e := v.Index(i)
+			c08Scribble(e, depth+1)
+			c08ScribbleScalar(e)
+		}
+	case reflect.Map:
+		for _, k := range v.MapKeys() {
+			e := v.MapIndex(k)
+			c08Scribble(e, depth+1)
+			n := reflect.New(v.Type().Elem()).Elem()
+			n.Set(e)
+			if c08ScribbleScalar(n) {
+				v.SetMapIndex(k, n)
+			}
+		}
+	}
+}
+
+func c08ScribbleScalar(e reflect.Value) bool {
+	if !e.CanSet() {
+		return false
+	}
+	switch e.Kind() {
+	case reflect.String:
+		e.SetString("~scribbled~")
+	case reflect.Bool:
+		e.SetBool(!e.Bool())
+	case reflect.Int, reflect.Int8, reflect.Int16, reflect.Int32, reflect.Int64:
+		e.SetInt(77)
+	case reflect.Uint, reflect.Uint8, reflect.Uint16, reflect.Uint32, reflect.Uint64:
+		e.SetUint(77)
+	case reflect.Float32, reflect.Float64:
+		e.SetFloat(77.5)
+	default:
+		return false
+	}
+	return true
 }
 
 // ---------------------------------------------------------------- generator
@@ -791,6 +859,49 @@ type c08Field struct {
 	hasRange                         bool
 	noLo, noHi                       bool // half-open range: the bound is omitted in the tag
 	options                          []string
+	dotted                           string // the whole key when it has dots ("p.a", "p.q.a", "a.", ".", …), else ""
+}
+
+// c08Node collects the bindings that dotted keys need below their first segments: `p { a v q { b w } }`
+type c08Node struct {
+	order []string
+	kids  map[string]*c08Node
+	leaf  string
+}
+
+func (n *c08Node) at(path []string) *c08Node {
+	cur := n
+	for _, k := range path {
+		if cur.kids == nil {
+			cur.kids = map[string]*c08Node{}
+		}
+		nx, ok := cur.kids[k]
+		if !ok {
+			nx = &c08Node{}
+			cur.kids[k] = nx
+			cur.order = append(cur.order, k)
+		}
+		cur = nx
+	}
+	return cur
+}
+
+func (n *c08Node) emit(sb *strings.Builder) {
+	for _, k := range n.order {
+		c := n.kids[k]
+		sb.WriteString(" " + k + " ")
+		if c.leaf != "" && len(c.order) == 0 {
+			sb.WriteString(c.leaf)
+			continue
+		}
+		sb.WriteString("{")
+		c.emit(sb)
+		sb.WriteString(" }")
+	}
+}
+
+func c08Segments(key string) []string {
+	return strings.FieldsFunc(key, func(c rune) bool { return c == '.' })
 }
 
 type c08Ty struct {
@@ -1010,8 +1121,32 @@ func c08GenType(r *verifh.Rng, depth int, fromStringAll bool) *c08Ty {
 		if r.Chance(1, 50) {
 			opts = append(opts, "inherit") // outside the model: panic monitor only
 		}
-		if r.Chance(1, 60) && keyTok != "" && keyTok != "-" {
-			keyTok = "p." + keyTok // dotted key: outside the model, panic monitor only
+		if r.Chance(1, 9) && keyTok != "" && keyTok != "-" {
+			// keys with dots: chained lookup (json / header / key) or literal lookup (WithOpaqueKeys); a small pool of
+			// texts, shared by all types of the process, so that the package-level key cache sees every text under
+			// both kinds of unmarshaler
+			// (every text carries the number of the section: what the cache holds for it was put there by this section, so a
+			// failing section fails on its own and shrinks to the few lines that matter)
+			pn, qn := fmt.Sprintf("p%d", c08Sec), fmt.Sprintf("q%d", c08Sec)
+			switch r.Intn(12) {
+			case 0:
+				keyTok = pn + ".q." + keyTok
+			case 1:
+				f.key = fmt.Sprintf("%s%d", f.key, c08Sec)
+				keyTok = f.key + "."
+			case 2:
+				f.key = fmt.Sprintf("%s%d", f.key, c08Sec)
+				keyTok = "." + f.key
+			case 3:
+				keyTok = pn + ".." + keyTok
+			case 4:
+				keyTok = strings.Repeat(".", 1+c08Sec)
+			case 5, 6:
+				keyTok = qn + "." + keyTok
+			default:
+				keyTok = pn + "." + keyTok
+			}
+			f.dotted = keyTok
 		}
 		// order of options is irrelevant to the parser: shuffle
 		for j := len(opts) - 1; j > 0; j-- {
@@ -1209,6 +1344,9 @@ func c08PrimInput(r *verifh.Rng, f *c08Field, p string, asString bool) string {
 // header mode: the keys of the (top-level) input are canonical MIME header keys, as net/http delivers them
 var c08Header bool
 
+// number of the section being generated (dotted key texts are per section)
+var c08Sec int
+
 func c08GenInput(r *verifh.Rng, t *c08Ty, sb *strings.Builder, fsAll, fa bool, pPresent int) {
 	sb.WriteString(" {")
 	// presence, then (mostly) repaired so that optional=dep / optional=!dep hold
@@ -1230,6 +1368,9 @@ func c08GenInput(r *verifh.Rng, t *c08Ty, sb *strings.Builder, fsAll, fa bool, p
 			}
 		}
 	}
+	outer := sb
+	tree := &c08Node{}
+	var pending []func()
 	for _, f := range t.fields {
 		if !present[f.key] {
 			continue
@@ -1241,7 +1382,50 @@ func c08GenInput(r *verifh.Rng, t *c08Ty, sb *strings.Builder, fsAll, fa bool, p
 		if c08Header && !r.Chance(1, 40) {
 			key = textproto.CanonicalMIMEHeaderKey(key)
 		}
-		sb.WriteString(" " + key + " ")
+		sb := outer
+		if f.dotted != "" {
+			// the value is generated as for any field, then placed: under the path of the key's segments (found by the
+			// chained lookup), under the literal key (found by the opaque lookup), both, in the enclosing object only
+			// (the chained lookup falls back to it), or behind a first segment that is not an object
+			whole := f.dotted
+			if c08Header && !r.Chance(1, 40) {
+				whole = textproto.CanonicalMIMEHeaderKey(whole)
+			}
+			segs := c08Segments(whole)
+			vb := &strings.Builder{}
+			sb = vb
+			mode := r.Intn(20)
+			if fsAll && !c08Header && r.Chance(1, 2) {
+				mode = 10 // opaque unmarshalers: mostly the literal key
+			}
+			pending = append(pending, func() {
+				v := strings.TrimSpace(strings.TrimPrefix(strings.TrimSpace(vb.String()), "@"))
+				if v == "" {
+					return
+				}
+				switch {
+				case len(segs) == 0:
+					outer.WriteString(" " + whole + " " + v)
+				case mode < 9:
+					tree.at(segs).leaf = v
+				case mode < 13:
+					outer.WriteString(" " + whole + " " + v)
+				case mode < 15:
+					tree.at(segs).leaf = v
+					outer.WriteString(" " + whole + " " + v)
+				case mode < 18:
+					tree.at(segs[:len(segs)-1])
+					outer.WriteString(" " + segs[len(segs)-1] + " " + v)
+				case mode < 19 && len(segs) > 1:
+					tree.at(segs[:1]).leaf = "n:1"
+				default:
+					tree.at(segs[:len(segs)-1])
+				}
+			})
+			sb.WriteString("@ ")
+		} else {
+			sb.WriteString(" " + key + " ")
+		}
 		if r.Chance(1, 25) {
 			sb.WriteString("null")
 			continue
@@ -1304,6 +1488,11 @@ func c08GenInput(r *verifh.Rng, t *c08Ty, sb *strings.Builder, fsAll, fa bool, p
 			}
 		}
 	}
+	sb = outer
+	for _, place := range pending {
+		place()
+	}
+	tree.emit(sb)
 	if r.Chance(1, 10) {
 		sb.WriteString(" zz n:1")
 	}
@@ -1315,6 +1504,7 @@ func c08Gen(r *verifh.Rng) []verifh.Section {
 	nsec := verifh.Scale(120, 500)
 	for i := 0; i < nsec; i++ {
 		var ops []string
+		c08Sec = i
 		// the two confirmed defects of the pinned commit, as fixed regression lines
 		if i == 0 {
 			ops = append(ops,
@@ -1351,10 +1541,14 @@ func c08Gen(r *verifh.Rng) []verifh.Section {
 		}
 		ntypes := verifh.Scale(12, 30)
 		for k := 0; k < ntypes; k++ {
-			mode := r.Intn(10)
+			mode := r.Intn(12)
 			cfg := "key=json fs=0 fa=0"
 			fsAll, fa, hdr := false, false, false
 			switch {
+			case mode == 10:
+				cfg = "key=json fs=3 fa=0" // WithOpaqueKeys alone: typed values, keys looked up literally
+			case mode == 11:
+				cfg, fsAll = "key=path fs=2 fa=0", true // WithStringValues alone: string values, chained keys
 			case mode == 0:
 				cfg, fsAll, fa = "key=form fs=1 fa=1", true, true
 			case mode == 1:
